@@ -236,7 +236,7 @@ func (s *seqCounters) add(seqNr uint32) {
 				nrToDrop++
 			}
 		}
-		if s._nrCounters == s.windowSize {
+		if s._nrCounters-nrToDrop == s.windowSize { // still full after dropping the outdated ones
 			nrToDrop++
 		}
 		if nrToDrop > 0 {
